@@ -65,13 +65,22 @@ CHECKS.append(
               "strings). Decides what is written, not that the re-parse equals the input.",
          note="Trusted: rustc MIR/const-eval, regex engines, grammar transcriptions, rio_turtle as the independent reader.",
          technique="static: finite predicate evaluation of byte tests + path-template extraction + DFA inclusion"))
+CHECKS.append(
+    dict(id="C08", level="other", engine="E1+E2+E3",
+         text="Validator languages include every token the back-ends can certainly deliver (DFA inclusion over all strings); "
+              "panic audit of everything reachable from the parser adapters (auto-discharge rules + exact-key audited table, "
+              "fail closed); accessor/kind consistency of all 32 Term impls; who-may-construct ArcBnode. Decides the "
+              "workspace's own adapter code, not termination or panics inside rio/json-ld.",
+         note="Trusted: the pinned back-ends emit tokens of their normative grammars (A8); rustc MIR; regex engines; the audited "
+              "table with one reason per entry.",
+         technique="static: DFA language inclusion + MIR panic-site enumeration with dominator-based discharge + call-graph reachability"))
 NOT_APPLICABLE = [
     dict(property_id="C17", reason="relativise/resolve inverse is an equation between runtime-computed strings "
          "(byte-offset arithmetic); no structural clause that is a genuine necessary condition without freezing the "
          "code; static analysis in reach cannot decide it"),
 ]
 # properties not yet wired in this commit are listed as not applicable *for now* by gen (see below)
-PENDING = ["C01", "C02", "C05", "C06", "C07", "C08", "C11", "C12", "C13", "C14", "C15",
+PENDING = ["C01", "C02", "C05", "C06", "C07", "C11", "C12", "C13", "C14", "C15",
            "C18"]
 for p in PENDING:
     if p not in [c["id"] for c in CHECKS]:
